@@ -148,6 +148,8 @@ impl Encode for VarInt {
 
 /// Encoding and decoding varint-prefixed payloads.
 pub mod payload {
+    use std::io::Read as _;
+
     use super::*;
 
     /// Encode varint-prefixed data payload.
@@ -168,9 +170,13 @@ pub mod payload {
     /// Decode varint-prefixed data payload.
     pub fn decode<R: io::Read + ?Sized>(reader: &mut R) -> Result<Vec<u8>, wire::Error> {
         let size = VarInt::decode(reader)?;
-        let mut data = vec![0; *size as usize];
-        reader.read_exact(&mut data[..])?;
+        let mut data = Vec::new();
 
+        // Nb. The declared size is not trusted for allocation: the buffer
+        // only grows with the bytes that are actually there to be read.
+        if reader.take(*size).read_to_end(&mut data)? as u64 != *size {
+            return Err(io::Error::from(io::ErrorKind::UnexpectedEof).into());
+        }
         Ok(data)
     }
 }
